@@ -3,10 +3,10 @@
    (to a candidate or to the non-transferable pile), a re-weighted ballot never gains value and loses less
    than two units, the re-weighted ballots of a candidate are worth at most the surplus; a Meek/Warren
    distribution conserves votes exactly.
-   WHOLE RUNS (wigm, wigm-prf, wigm-prf-batch, scotland; Fixed, integer and Guarded with guard 0): in every state a count
+   WHOLE RUNS (all six Gregory-family rules: wigm, wigm-prf, wigm-prf-batch, scotland, cfer, cfer-batch, mpls; Fixed, integer and Guarded with guard 0): in every state a count
    reaches without crashing, and in every snapshot it has recorded, tallies + non-transferable never exceed the
    ballots cast (C02_no_votes_created_whole_run; invariant and Hoare proof in Proofs/Conserve.v, ConserveCount.v).
-   cfer, mpls, the Meek family, QPQ and rational arithmetic: correspondence (values scope) + conservation oracle (_partial). *)
+   The Meek family, QPQ and rational arithmetic: correspondence (values scope) + conservation oracle (_partial). *)
 From Coq Require Import ZArith List Bool String.
 From Droop Require Import Model.KernelBase Model.Arith Model.Prelude Model.State Model.Prims Model.RulesMeek Model.Election
   Proofs.Zlike Proofs.Gregory Proofs.MeekDist Proofs.Conserve Proofs.ConserveCount.
